@@ -16,6 +16,7 @@ root = sys.argv[1] if len(sys.argv) > 1 else "/repo"
 src = os.path.join(root, "src", "soundevent")
 names = {}
 assigns = {}
+classes = {}
 for dp, dn, fn in os.walk(src):
     for f in sorted(fn):
         if not f.endswith(".py"):
@@ -40,10 +41,12 @@ for dp, dn, fn in os.walk(src):
 
         visit(tree.body, "")
         names[mod] = sorted(out)
+        classes[mod] = sorted(st.name for st in tree.body if isinstance(st, ast.ClassDef))
         assigns[mod] = sorted({t.id for st in tree.body if isinstance(st, ast.Assign) for t in st.targets if isinstance(t, ast.Name)}
                               | {st.target.id for st in tree.body if isinstance(st, ast.AnnAssign) and isinstance(st.target, ast.Name)})
 dst = os.path.join(os.path.dirname(os.path.dirname(os.path.abspath(__file__))), "sa", "pinned_names.json")
 json.dump(names, open(dst, "w"), indent=0, sort_keys=True)
 json.dump(assigns, open(dst.replace("pinned_names", "pinned_assigns"), "w"), indent=0, sort_keys=True)
+json.dump(classes, open(dst.replace("pinned_names", "pinned_classes"), "w"), indent=0, sort_keys=True)
 print(sum(len(v) for v in names.values()), "functions in", len(names), "modules ->", dst)
 print(sum(len(v) for v in assigns.values()), "module-level assignments ->", dst.replace("pinned_names", "pinned_assigns"))
